@@ -85,8 +85,9 @@ pub fn run(ctx: &Ctx, out: &mut Out, prop: &str) {
         let gi = i * ctx.nshards + ctx.shard;
         let seed = rng.bytes(32);
         let mut cfg = HConfig::new(&seed);
-        cfg.batch_size = *rng.pick(&[1u8, 2, 7, 63, 64]);
-        cfg.fault_percentage = *rng.pick(&[0u8, 1, 25, 50]);
+        // boundary values half of the time, the whole documented range otherwise
+        cfg.batch_size = if rng.chance(1, 2) { *rng.pick(&[1u8, 2, 7, 63, 64]) } else { rng.range(1, 64) as u8 };
+        cfg.fault_percentage = if rng.chance(1, 2) { *rng.pick(&[0u8, 1, 25, 50]) } else { rng.range(0, 50) as u8 };
         let Ok(mut d) = Driver::new(cfg.clone(), 8) else {
             out.inconclusive("server start failed");
             continue;
